@@ -319,6 +319,28 @@ def _r6(ctx: Context, tree: str, N: Names, h11c, h2c) -> None:
             rep.ob("C01.R6", fkey(tree, it, "body-binding"), ok, where(it, call), f"body read uses {alts} on {norm(call.func.value)}")
 
 
+def queue_appends_via_get(f: FuncInfo) -> list[tuple[ast.Call, str, str, bool]]:
+    """The lock-free form of routing an event to its stream's queue:
+           v = self._events.get(K);  if v is not None: v.append(E)
+    Returns (append call, K, E, guarded-by-`v is not None`-only) for every such append in `f`."""
+    out = []
+    gets: dict[str, tuple[ast.Assign, str]] = {}
+    for st in own_nodes(f.node):
+        if isinstance(st, ast.Assign) and len(st.targets) == 1 and isinstance(st.targets[0], ast.Name) and isinstance(st.value, ast.Call) \
+                and isinstance(st.value.func, ast.Attribute) and st.value.func.attr == "get" and norm(st.value.func.value) == "self._events" and len(st.value.args) == 1 and not st.value.keywords:
+            gets[st.targets[0].id] = (st, norm(st.value.args[0]))
+    for c in own_nodes(f.node):
+        if isinstance(c, ast.Call) and isinstance(c.func, ast.Attribute) and c.func.attr == "append" and isinstance(c.func.value, ast.Name) and c.func.value.id in gets and len(c.args) == 1:
+            v = c.func.value.id
+            st, key = gets[v]
+            # the variable is bound exactly once in the function
+            binds = [x for x in own_nodes(f.node) if isinstance(x, ast.Name) and x.id == v and isinstance(x.ctx, ast.Store)]
+            g = guard_atoms(guards_of(c))
+            guarded = (f"None!={v}" in g or f"{v}!=None" in g) and len(binds) == 1 and st.lineno < c.lineno
+            out.append((c, key, norm(c.args[0]), guarded))
+    return out
+
+
 def _r7(ctx: Context, tree: str, N: Names, h2c, rule: str = "C01.R7") -> None:
     rep = ctx.rep
     n = 0
@@ -351,9 +373,20 @@ def _r7(ctx: Context, tree: str, N: Names, h2c, rule: str = "C01.R7") -> None:
     stream_table_census(ctx, rule, tree, N, h2c)
     # reads of the table by .get(): key must be the routine's stream id
     for f in h2c.methods.values():
+        via_get = queue_appends_via_get(f)
+        for c, key, ev, guarded in via_get:
+            n += 1
+            ok = key == f"{ev}.stream_id" and guarded
+            rep.ob(rule, fkey(tree, f, f"self._events[{key}].append"), ok, where(f, c),
+                   f"`{ast.unparse(c)}`: appends `{ev}` to the queue looked up under its own stream id (present-entry guard: {guarded})" if ok else
+                   f"`{ast.unparse(c)}`: the queue was looked up under `{key}`, the event is `{ev}`, present-entry guard {guarded} - one stream would receive another stream's data, or events are dropped")
+        routed = {id(st) for c, _, _, _ in via_get for st in [c]}
         for c in calls_named(f, "get"):
             if norm(c.func.value) == "self._events":
-                rep.ob(rule, fkey(tree, f, norm(c)), [norm(a) for a in c.args] == ["stream_id"], where(f, c), f"`{ast.unparse(c)}` looks up the routine's own stream id")
+                arg = [norm(a) for a in c.args]
+                if arg and arg[0].endswith(".stream_id") and any(k == arg[0] for _, k, _, _ in via_get):
+                    continue   # judged with its append above
+                rep.ob(rule, fkey(tree, f, norm(c)), arg == ["stream_id"], where(f, c), f"`{ast.unparse(c)}` looks up the routine's own stream id")
 
 
 def _r8(ctx: Context, tree: str, N: Names, h11c, h2c) -> None:
@@ -507,3 +540,7 @@ def run(ctx: Context) -> None:  # noqa: F811
     _core_run(ctx)
     ctx.rep.rule("C01.R10", "the lock-free close routine stores CLOSED before its first suspension point / blocking call")
     _closed_before_suspension(ctx)
+    from . import support
+
+    ctx.rep.rule('C01.R11', 'an unfinished exchange is closed when the caller lets go: the convenience API closes the response on every exit (the close path is what closes a connection that cannot be reused)')
+    support.api_releases(ctx, 'C01.R11')
